@@ -211,7 +211,7 @@ theorem recovery_run (msg : String) (s e : Nat) (err : ParseErr) (dropped : List
 /-- the four error-recovery actions: `None`, and an Error has been reported -/
 theorem tri_recovery (msg : String) (t : VTy) (ds : List Diag) (args : List ArgV)
     (h : ArgsTyped (hasError ds) [.triple .recovery] args) :
-    Tri env (recoveryAction msg args) ds (fun v ds' => HasTy (hasError ds') (.optNS t) v) := by
+    Tri env (recoveryAction msg args) ds (fun v ds' => HasTy (hasError ds') (.optNS t) v ∧ hasError ds') := by
   obtain ⟨a, ha, hty⟩ := h.get (i := 0) rfl
   cases args with
   | nil => cases ha
@@ -234,9 +234,10 @@ theorem tri_recovery (msg : String) (t : VTy) (ds : List Diag) (args : List ArgV
         | ok r =>
           obtain ⟨v', ds'⟩ := r
           rintro ⟨rfl, d, h2, h3⟩
-          refine ⟨⟨[d], h2⟩, ?_⟩
+          have he : hasError ds' := ⟨d, by rw [h2]; exact List.mem_append_right _ (List.mem_singleton.mpr rfl), h3⟩
+          refine ⟨⟨[d], h2⟩, ?_, he⟩
           simp only [HasTy]
-          exact ⟨d, by rw [h2]; exact List.mem_append_right _ (List.mem_singleton.mpr rfl), h3⟩
+          exact he
 
 /-! ### every hand-written action -/
 
